@@ -1122,6 +1122,110 @@ def validate_dispersive_divisor_stability(
         warnings.warn(detail, UserWarning, stacklevel=2)
 
 
+def _coupled_stability_margin(
+    mat: Material,
+    dt: float,
+    courant_factor: float,
+    num_active_axes: int = 3,
+) -> tuple[float, float, int]:
+    r"""Stability margin of the explicit polarization coupling for a Lorentz/Drude material.
+
+    The E update uses the polarization recurrence explicitly (``P^{n+1}`` depends on ``E^n``), so
+    the coupled Yee/ADE scheme is stable at the grid's shortest wavelength only while, per axis,
+
+    .. math::
+        \sum_p \frac{a_p \Delta t^2}{\varepsilon_\infty\,(4 - \omega_{0,p}^2 \Delta t^2)}
+        \;\le\; 1 - \frac{d}{3} \frac{S^2}{\varepsilon_\infty\,\mu}
+
+    with ``a_p`` the pole's ``E`` coupling (``delta_epsilon * omega_0^2`` or ``omega_p^2``),
+    ``S`` the Courant factor and ``d`` the number of grid axes with more than one cell (the
+    shortest wavelength only exists along those). The bound does not depend on the damping.
+
+    Args:
+        mat: A dispersive material (``mat.dispersion`` must not be ``None``).
+        dt: Simulation time step (seconds).
+        courant_factor: Courant factor ``S`` the time step was derived with.
+        num_active_axes: Number of grid axes with more than one cell.
+
+    Returns:
+        tuple: ``(lhs, rhs, axis)`` of the inequality above on the axis where ``lhs - rhs`` is largest.
+    """
+    assert mat.dispersion is not None
+    eps_inf = (mat.permittivity[0], mat.permittivity[4], mat.permittivity[8])
+    mu = min(mat.permeability[0], mat.permeability[4], mat.permeability[8])
+    worst = (-math.inf, 0.0, 0.0, 0)
+    for ax in range(3):
+        lhs = 0.0
+        for p in mat.dispersion.poles:
+            if p.is_oriented:
+                assert p.orientation is not None
+                active = p.orientation[ax] != 0.0
+                omega_0, coupling = p.omega_0_axes[0], p.coupling_sq_axes[0]
+            else:
+                active = True
+                omega_0, coupling = p.omega_0_axes[ax], p.coupling_sq_axes[ax]
+            if not active or coupling == 0.0:
+                continue
+            lhs += coupling * dt**2 / (eps_inf[ax] * (4.0 - (omega_0 * dt) ** 2))
+        rhs = 1.0 - (num_active_axes / 3.0) * courant_factor**2 / (eps_inf[ax] * mu)
+        if lhs - rhs > worst[0]:
+            worst = (lhs - rhs, lhs, rhs, ax)
+    return worst[1], worst[2], worst[3]
+
+
+def validate_dispersive_coupled_stability(
+    materials: dict[str, Material],
+    dt: float,
+    courant_factor: float,
+    num_active_axes: int = 3,
+) -> None:
+    r"""Warn when a Lorentz/Drude material exceeds the stability limit of the explicit ADE coupling.
+
+    Strong or fast poles lower the usable Courant factor below the vacuum limit (see
+    :func:`_coupled_stability_margin`); beyond it the fields grow without bound at the grid's
+    shortest wavelengths. Materials with a ``dE/dt`` coupling (CCPR) are screened by
+    :func:`validate_dispersive_divisor_stability` instead.
+
+    Args:
+        materials: Mapping of label -> :class:`Material` for every material in the simulation.
+        dt: Simulation time step (seconds).
+        courant_factor: The configured ``courant_factor`` (``dt`` is proportional to it).
+        num_active_axes: Number of grid axes with more than one cell (3 for a volumetric domain).
+    """
+    for name, mat in materials.items():
+        if mat.dispersion is None:
+            continue
+        if any(b != 0.0 for p in mat.dispersion.poles for b in p.coupling_edot_axes):
+            continue
+        lhs, rhs, worst_ax = _coupled_stability_margin(mat, dt, courant_factor, num_active_axes)
+        if lhs <= rhs:
+            continue
+        # both sides are monotonic in the Courant factor (dt scales with it): bisect the largest safe one
+        lo, hi = 0.0, 1.0
+        for _ in range(50):
+            mid = 0.5 * (lo + hi)
+            m_lhs, m_rhs, _ = _coupled_stability_margin(mat, mid * dt, mid * courant_factor, num_active_axes)
+            if m_lhs <= m_rhs:
+                lo = mid
+            else:
+                hi = mid
+        cf_max = lo * courant_factor
+        if cf_max > 0.0:
+            scale = 10.0 ** (math.floor(math.log10(cf_max)) - 2)
+            cf_max = math.floor(cf_max / scale) * scale
+        axis_note = f" on axis {'xyz'[worst_ax]}" if not (mat.is_all_isotropic and mat.dispersion.is_isotropic) else ""
+        warnings.warn(
+            f"Dispersive material '{name}' exceeds the stability limit of the explicit polarization coupling"
+            f"{axis_note}: sum_p a_p*dt^2 / (eps_inf * (4 - (omega_0p*dt)^2)) = {lhs:.4g} > "
+            f"1 - (d/3) * courant_factor^2 / (eps_inf * mu) = {rhs:.4g} (d = {num_active_axes} axes with more than "
+            f"one cell). The fields grow without bound at the grid's "
+            f"shortest wavelengths. Lower courant_factor to <= {cf_max:.3g} (currently {courant_factor:.3g}) "
+            "or use a finer grid.",
+            UserWarning,
+            stacklevel=2,
+        )
+
+
 def compute_ordered_names(
     materials: dict[str, Material],
 ) -> list[str]:
